@@ -194,7 +194,15 @@ func bubble(c *explore.Ctx, sp spec, sh sharder) (out outcome) {
 	outage := false
 	lostMask, lostCalls := 0, 0
 	defer func() { out.lost = lostCalls }()
+	// stopping: a clean stop is in progress (the loop context is cancelled). A loop that was parked in an unanswered
+	// call has a ticker tick waiting for it and may win one more round of its select against ctx.Done() (Go picks at
+	// random); a Submit made in that round carries a cancelled context and is answered "cancelled" (what a client that
+	// honours its context returns), so that the outcome does not depend on that coin.
+	stopping := false
 	env.DA.SubmitPolicy = func(blobs [][]byte) world.SubmitAnswer {
+		if stopping {
+			return world.SubmitCanceled
+		}
 		if outage {
 			return world.SubmitGenericError
 		}
@@ -369,9 +377,11 @@ func bubble(c *explore.Ctx, sp spec, sh sharder) (out outcome) {
 			synctest.Wait()
 			sig.WriteString("K")
 		} else {
+			stopping = true
 			cancel()
 			synctest.Wait()
 			n.Fate.Kill()
+			stopping = false
 			sig.WriteString("R")
 		}
 		return boot(n.KV.Image())
@@ -458,15 +468,17 @@ func TestCheck(t *testing.T) {
 	// part 1b: histories with 1..lostSpec.lostBlocks DA blocks whose requests get no answer
 	lostSpec := spec{depth: vf.Pick(r, 5, 6), lostBlocks: vf.Pick(r, 1, 2)}
 	lostBudgets := map[string]int{"outage": vf.Pick(r, 1, 1), "restart": vf.Pick(r, 1, 1)}
-	lazyLost := lazySpec{blocks: lazyBlocks, lostBlocks: vf.Pick(r, 1, 2)}
+	// part 2b: one lost-request DA block (on an idle chain only the header loop sends requests, and it stays parked on
+	// the unanswered call for longer than the whole pattern, so a second such block could only be seen after a restart)
+	lazyLost := lazySpec{blocks: lazyBlocks, lostBlocks: vf.Pick(r, 1, 1)}
 	lazyLostRestarts := vf.Pick(r, 0, 1)
 	r.Assume = []string{
 		"virtual time; DA block time 1 s; a DA outage rejects every Submit during one DA block with a generic error",
 		"'genuinely still waiting' is read in the weakest way: committed blocks whose header, or non-empty data, has not been acknowledged by the DA layer, counted once per block",
 		"'resumes as soon as accepted': checked after three accepting DA blocks in which nothing is left unacknowledged",
 		fmt.Sprintf("DA outages have two forms: a DA block in which every Submit is ANSWERED with a generic error, and a DA block in which the header submissions, the data submissions or both get NO ANSWER at all (neither success nor error: the DA double logs the request, stores nothing, and the call returns only when its context is done, with the context's error); the unanswered calls stay open when that DA block is over, every later request is answered 'accepted'. The node cannot tell a lost request from a slow one before it gives the call up, so after a history with a lost request the closing phase is %d accepting DA blocks longer (the code under test abandons an attempt after 60 s; 'never stops permanently' is checked as 'production has resumed after %d+3 DA blocks in which the DA layer accepted every submission it was sent'). The declines-only-while-waiting oracle stays armed all the time: blocks whose request got no answer are genuinely unacknowledged", lostHorizon, lostHorizon),
-		"node restarts: between any two actions the process may end — crash (from that instant no call of the old process reaches the store, the DA layer, the executor or the sequencer) or clean stop (the loops are cancelled and run to their end first) — and a NEW Manager is constructed over the key/value image the old process left behind, with the same DA layer, executor and sequencing layer; the submission loops are started again and the harness keeps acting between two DA blocks. The oracle is the same before and after a restart (the ground truth is the DA double's acknowledgement log and the chain in the image, both of which outlive the process). Restarts happen at action boundaries only: no crash in the middle of a store write or of a DA call (after such a crash the node cannot know about an acceptance, so counting the block as waiting is not a violation; C04/C06/C07 explore those instants). The on-disk cache files are not part of this world (root directory absent); the pending counts do not use them. A node that cannot be constructed over its own image is reported (clause startup)",
-		"part 2: lazy mode (block interval 1 s, idle interval 2 s), idle chain (only empty batches), real AggregationLoop and submission loops under the cooperative scheduler in canonical order; every outage pattern over 6/8 DA blocks, limits 1-2, with up to 1/2 restarts (crash or clean stop; new Manager and new loops over the image left behind) at any DA-block boundary including the one before the closing phase; after the DA accepted everything for 4 DA blocks a block must appear within two idle intervals and a block interval. Part 2b: 1/1-2 of the DA blocks give no answer to the requests sent during them (on an idle chain: header submissions), every other DA block accepting or down, up to 0/1 restarts; closing phase 4+"+fmt.Sprint(lostHorizon)+" accepting DA blocks",
+		"node restarts: between any two actions the process may end — crash (from that instant no call of the old process reaches the store, the DA layer, the executor or the sequencer) or clean stop (the loops are cancelled and run to their end first; a Submit call made with the cancelled context is answered 'cancelled') — and a NEW Manager is constructed over the key/value image the old process left behind, with the same DA layer, executor and sequencing layer; the submission loops are started again and the harness keeps acting between two DA blocks. The oracle is the same before and after a restart (the ground truth is the DA double's acknowledgement log and the chain in the image, both of which outlive the process). Restarts happen at action boundaries only: no crash in the middle of a store write or of a DA call (after such a crash the node cannot know about an acceptance, so counting the block as waiting is not a violation; C04/C06/C07 explore those instants). The on-disk cache files are not part of this world (root directory absent); the pending counts do not use them. A node that cannot be constructed over its own image is reported (clause startup)",
+		"part 2: lazy mode (block interval 1 s, idle interval 2 s), idle chain (only empty batches), real AggregationLoop and submission loops under the cooperative scheduler in canonical order; every outage pattern over 6/8 DA blocks, limits 1-2, with up to 1/2 restarts (crash or clean stop; new Manager and new loops over the image left behind) at any DA-block boundary including the one before the closing phase; after the DA accepted everything for 4 DA blocks a block must appear within two idle intervals and a block interval. Part 2b: one of the DA blocks (any) gives no answer to the requests sent during them (on an idle chain: header submissions), every other DA block accepting or down, up to 0/1 restarts; closing phase 4+" + fmt.Sprint(lostHorizon) + " accepting DA blocks",
 		"the exploration is dealt out to 16 processes by a hash of the first half of each history (each process walks the prefix tree, exactly one continues below a prefix); evaluations counts complete histories only, each once",
 	}
 	run := func(c *explore.Ctx) outcome { return body(t, c, spec{depth: depth}, sh) }
@@ -511,7 +523,7 @@ func TestCheck(t *testing.T) {
 		r.Finish(vf.Coverage{Evaluations: 1, DistinctNontrivial: 1})
 		return
 	}
-	var full, lostFull, points atomic.Int64 // complete histories of this process (prefix stubs of other shards are not counted)
+	var full, lostFull, points atomic.Int64           // complete histories of this process (prefix stubs of other shards are not counted)
 	var lostRuns, lostReqs, lazyLostRuns atomic.Int64 // histories in which at least one DA request got no answer / such requests
 	var sampled [5]atomic.Int32
 	const sigKey = "signature(P=produced,d=declined,t=DA block,x=outage,h/a/b=DA block whose header/data/all requests get no answer,T=lostHorizon accepting DA blocks,K=crash+restart,R=clean stop+restart)"
@@ -545,9 +557,8 @@ func TestCheck(t *testing.T) {
 			}
 		}
 	}
-	tStart := time.Now() // TEMP
 	st := explore.Explore(explore.Config{Budgets: budgets, Deadline: vf.Pick(r, 240*time.Second, 25*time.Minute)}, func(c *explore.Ctx) {
-		if os.Getenv("C08_ONLY_LOST") != "" { // TEMP
+		if os.Getenv("C08_DUMP") != "" { // TEMP
 			return
 		}
 		handle(c, run(c), &full, c.Choices())
@@ -555,17 +566,25 @@ func TestCheck(t *testing.T) {
 	for _, m := range st.Nondet {
 		r.EngineError("nondeterminism: " + m)
 	}
-	tP1 := time.Since(tStart) // TEMP
-	tStart = time.Now()
+	var dumpF *os.File // TEMP
+	var dumpMu sync.Mutex
+	if p := os.Getenv("C08_DUMP"); p != "" {
+		dumpF, _ = os.Create(p)
+		defer dumpF.Close()
+	}
 	// part 1b: lost requests
 	st1b := explore.Explore(explore.Config{Budgets: lostBudgets, Deadline: vf.Pick(r, 240*time.Second, 15*time.Minute)}, func(c *explore.Ctx) {
-		handle(c, body(t, c, lostSpec, sh), &lostFull, map[string]any{"Lost": true, "Choices": c.Choices()})
+		o := body(t, c, lostSpec, sh)
+		if dumpF != nil { // TEMP
+			dumpMu.Lock()
+			fmt.Fprintf(dumpF, "%s | %s | %v\n", c.String(), o.sig, o.events)
+			dumpMu.Unlock()
+		}
+		handle(c, o, &lostFull, map[string]any{"Lost": true, "Choices": c.Choices()})
 	})
 	for _, m := range st1b.Nondet {
 		r.EngineError("nondeterminism (lost-request part): " + m)
 	}
-	tP1b := time.Since(tStart) // TEMP
-	tStart = time.Now()
 	// part 2: lazy mode, idle chain, real AggregationLoop; part 2b: the same with lost requests
 	var lazyFull, lazyLostFull atomic.Int64
 	handleLazy := func(c *explore.Ctx, o outcome, count *atomic.Int64, history any) {
@@ -596,9 +615,6 @@ func TestCheck(t *testing.T) {
 		}
 	}
 	st2 := explore.Explore(explore.Config{Budgets: map[string]int{"restart": lazyRestarts}, Deadline: vf.Pick(r, 120*time.Second, 10*time.Minute)}, func(c *explore.Ctx) {
-		if os.Getenv("C08_ONLY_LOST") != "" { // TEMP
-			return
-		}
 		handleLazy(c, lazyBody(t, c, lazySpec{blocks: lazyBlocks}, sh), &lazyFull, map[string]any{"Lazy": true, "Choices": c.Choices()})
 	})
 	for _, m := range st2.Nondet {
@@ -610,7 +626,6 @@ func TestCheck(t *testing.T) {
 	for _, m := range st2b.Nondet {
 		r.EngineError("nondeterminism (lazy lost-request part): " + m)
 	}
-	tP2 := time.Since(tStart) // TEMP
 	var caps []string
 	if st.Capped != "" {
 		caps = append(caps, st.Capped)
@@ -624,23 +639,19 @@ func TestCheck(t *testing.T) {
 	if st2b.Capped != "" {
 		caps = append(caps, "lazy lost-request part: "+st2b.Capped)
 	}
-	if f, err := os.OpenFile("/tmp/r4/C08/timing.log", os.O_APPEND|os.O_CREATE|os.O_WRONLY, 0o644); err == nil { // TEMP
-		fmt.Fprintf(f, "shard %d: part1 %v part1b %v lazy %v\n", sh.i, tP1, tP1b, tP2)
-		f.Close()
-	}
 	tot, counted := sumOverShards(sh, []int64{full.Load(), lostFull.Load(), lazyFull.Load(), lostRuns.Load(), lazyLostRuns.Load(), lostReqs.Load(), lazyLostFull.Load()})
 	r.Finish(vf.Coverage{
 		Evaluations: full.Load() + lostFull.Load() + lazyFull.Load() + lazyLostFull.Load(), DistinctNontrivial: int64(r.DistinctOutcomes()), States: int64(r.DistinctOutcomes()), Transitions: points.Load(),
 		Rule: "part 1: every action sequence of the depth bound over {produce non-empty, produce empty, one DA block with accepting DA, one DA block of DA outage (every request answered with an error; at most max_outage_blocks), crash + restart, clean stop + restart (together at most max_restarts; a restart = a NEW Manager and new submission loops over the key/value image the old process left behind, same DA layer / executor / sequencing layer)} × limit {1,2,3} × initial height {1,3}, on the real production step and the real submission loops under virtual time, each followed by three accepting DA blocks and one production attempt; " +
 			"part 1b (lost requests): every action sequence of lost_part.depth steps over the same alphabet (bounds lost_part.max_outage_blocks / max_restarts) in which 1..lost_part.max_lost_request_blocks steps — at any positions but the first, where nothing is committed yet — are DA blocks whose header submissions / data submissions / both get NO answer (the call stays open until the caller gives it up; afterwards the DA layer accepts), × limit {1,2,3} × initial height {1,3}, each followed by lost_request_horizon_da_blocks + 3 accepting DA blocks and one production attempt; " +
-			"part 2 (lazy mode, idle chain, real AggregationLoop): every outage pattern over lazy_da_blocks DA blocks × limit {1,2} × at most lazy_max_restarts restarts (crash or clean stop) at the DA-block boundaries; part 2b: the same in which 1..lazy_lost_part.max_lost_request_blocks of the DA blocks (any of them) are DA blocks whose requests get NO answer, the others accepting or down in every pattern, with at most lazy_lost_part.max_restarts restarts, closing phase lost_request_horizon_da_blocks DA blocks longer; distinct = distinct produced/declined/restarted signatures",
+			"part 2 (lazy mode, idle chain, real AggregationLoop): every outage pattern over lazy_da_blocks DA blocks × limit {1,2} × at most lazy_max_restarts restarts (crash or clean stop) at the DA-block boundaries; part 2b: the same in which lazy_lost_part.max_lost_request_blocks of the DA blocks (any of them) is a DA block whose requests get NO answer, the others accepting or down in every pattern, with at most lazy_lost_part.max_restarts restarts, closing phase lost_request_horizon_da_blocks DA blocks longer; distinct = distinct produced/declined/restarted signatures",
 		Exhaustive: true, Caps: caps,
 		Bounds: map[string]any{"depth": depth, "limits": []int{1, 2, 3}, "initial_heights": []int{1, 3}, "max_outage_blocks": 3, "max_restarts": maxRestarts, "restart_kinds": []string{"crash", "clean-stop"}, "lazy_da_blocks": lazyBlocks, "lazy_limits": []int{1, 2}, "lazy_max_restarts": lazyRestarts,
-			"lost_part": map[string]any{"depth": lostSpec.depth, "max_lost_request_blocks": lostSpec.lostBlocks, "lost_request_kinds": []string{"header requests", "data requests", "both"}, "placements_of_lost_blocks": len(lostPlacements(lostSpec.depth, lostSpec.lostBlocks)), "max_outage_blocks": lostBudgets["outage"], "max_restarts": lostBudgets["restart"]},
-			"lazy_lost_part": map[string]any{"da_blocks": lazyLost.blocks, "max_lost_request_blocks": lazyLost.lostBlocks, "placements_of_lost_blocks": len(lostPlacements(lazyLost.blocks+1, lazyLost.lostBlocks)), "max_restarts": lazyLostRestarts},
+			"lost_part":                      map[string]any{"depth": lostSpec.depth, "max_lost_request_blocks": lostSpec.lostBlocks, "lost_request_kinds": []string{"header requests", "data requests", "both"}, "placements_of_lost_blocks": len(lostPlacements(lostSpec.depth, lostSpec.lostBlocks)), "max_outage_blocks": lostBudgets["outage"], "max_restarts": lostBudgets["restart"]},
+			"lazy_lost_part":                 map[string]any{"da_blocks": lazyLost.blocks, "max_lost_request_blocks": lazyLost.lostBlocks, "placements_of_lost_blocks": len(lostPlacements(lazyLost.blocks+1, lazyLost.lostBlocks)), "max_restarts": lazyLostRestarts},
 			"lost_request_horizon_da_blocks": lostHorizon,
 			"measured_over_all_processes": map[string]any{"processes_counted": counted, "part1_histories": tot[0], "part1b_histories": tot[1], "part2_lazy_histories": tot[2],
-				"part2b_lazy_histories": tot[6],
+				"part2b_lazy_histories":                             tot[6],
 				"part1b_histories_in_which_a_request_got_no_answer": tot[3], "part2b_histories_in_which_a_request_got_no_answer": tot[4], "requests_that_got_no_answer": tot[5]}},
 	})
 }
